@@ -20,7 +20,10 @@ let () =
         let seqs = List.init k (fun s ->
           let len = next () in
           List.init len (fun i -> let key = next () in (nat_of_int key, (nat_of_int s, nat_of_int i)))) in
-        let stable = (entry = 1 || entry = 3) and sentinels = (entry >= 2) in
+        let stable = (entry = 1 || entry = 3) in
+        (* the *_sentinels entry points: one sentinel element behind every sequence, greater than all real keys *)
+        let maxkey = List.fold_left (fun m l -> List.fold_left (fun m (key, _) -> max m (int_of_nat key)) m l) 0 seqs in
+        let sentinels = if entry >= 2 then Some (List.init k (fun s -> (nat_of_int (maxkey + 1), (nat_of_int s, O)))) else None in
         match run_model (fseq <> 0) (fpar <> 0) (nat_of_int mink) (nat_of_int minn) stable sentinels (split = 0)
                 seqs (nat_of_int size) (nat_of_int p) (nat_of_int os) with
         | None -> print_endline "UB"
